@@ -1,0 +1,17 @@
+//go:build verif
+
+// Contracts for package common, checked by /verif/govc (comment-only file; see /verif/DESIGN.md).
+
+package common
+
+//@ property C14 min-obligations 8
+
+// The header generator's closure: one atomic fetch-and-add on the process-wide counter per header. With the
+// assumed contract of sync/atomic.AddUint32 (linearizable: returns the value it stored) the k-th draw in the
+// linearization order returns start+k, so ids are pairwise distinct until 2^32 draws; the frame-scan obligation
+// frame/atomic-only/common.messageXid shows nothing else touches the counter.
+//@ func NewHeaderGenerator$1() (h) [C14 C01]
+//@   modifies messageXid
+//@   ensures messageXid == old(messageXid) + 1
+//@   ensures h.Xid == messageXid
+//@   ensures h.Version == uint8(ver) && h.Type == 0 && h.Length == 8
